@@ -21,7 +21,7 @@ Inductive pop :=
 | PScale (r a : nat) (k : Z)        (* r := ra * k   /  k * ra *)
 | PSettleC (x : var) (k : Z)        (* Px.settle(k) *)
 | PSettleP (x : var) (a : nat)      (* Px.settle(copy of ra) *)
-| PWait (a : nat).                  (* with try_compute: ra.wait() *)
+| PWait (spec : bool) (a : nat).    (* ra.wait(), inside `with try_compute` when spec *)
 
 Record mstate := MState { regs : list poly; settled : list (var * poly); rets : list (option poly) }.
 
@@ -69,12 +69,12 @@ Definition mstep (st : mstate) (o : pop) : mstate :=
   | PScale r a k => setr st r (scale k (getr st a))
   | PSettleC x k => MState (regs st) ((x, pconst k) :: settled st) (rets st)
   | PSettleP x a => MState (regs st) ((x, getr st a) :: settled st) (rets st)
-  | PWait a =>
+  | PWait spec a =>
       let sigma := lookup (settled st) in
       let allr := all_ready sigma (getr st a) in
-      let p' := wait_step sigma (getr st a) in
+      let p' := wait_mutation spec sigma (getr st a) in
       let st' := setr st a p' in
-      MState (regs st') (settled st') (rets st' ++ [if allr then wait_ret sigma p' else None])
+      MState (regs st') (settled st') (rets st' ++ [if spec && negb allr then None else wait_ret sigma p'])
   end.
 
 Definition run_ops (nregs : nat) (ops : list pop) : mstate :=
